@@ -455,3 +455,29 @@ package values
 //@ at call PropertyValue #1 before assert delegates: this == r && arg0 == k
 //@ at call PropertyValue #1: out = result
 //@ ensures same: result == out
+
+// ---- Convert (C01, C02): no conversion request panics; failures are returned errors ------
+//@ func values.conversionError
+//@ props C01
+//@ panics nothing
+//@ assigns nothing
+//@ ensures nonnil: result != nil
+
+//@ func values.ParseDate
+//@ unverified
+//@ props C01
+//@ panics nothing
+//@ assigns nothing
+
+//@ func values.Convert
+//@ props C01 C02
+//@ panics nothing
+//@ requires typ: typ != 0
+//@ at call SortedMapKeys #1 before assert mapOrder: kindof(typ) == reflect.Slice
+//@ loop 1 invariant result: rv_valid(result) && !rv_iface(result) && typeof(rv_val(result)) == typ
+//@ loop 2 invariant result: rv_valid(result) && !rv_iface(result) && typeof(rv_val(result)) == typ
+//@ loop 2 invariant keys: forall(j, 0, len(_r), rv_valid(_r[j]) && pl_mhas(rv_val(rv), rv_val(_r[j])) && (rv_iface(_r[j]) || tassignable(typeof(rv_val(_r[j])), tkey(typeof(rv_val(rv))))))
+//@ loop 3 invariant result: rv_valid(result) && !rv_iface(result) && typeof(rv_val(result)) == typ
+//@ loop 4 invariant result: rv_valid(result) && !rv_iface(result) && typeof(rv_val(result)) == typ
+//@ loop 5 invariant result: rv_valid(result) && !rv_iface(result) && typeof(rv_val(result)) == typ
+//@ loop 5 invariant keys: forall(j, 0, len(_r), rv_valid(_r[j]) && pl_mhas(rv_val(rv), rv_val(_r[j])) && (rv_iface(_r[j]) || tassignable(typeof(rv_val(_r[j])), tkey(typeof(rv_val(rv))))))
